@@ -262,6 +262,26 @@ def run(tier):
             C.nontrivial(["key-handout", s_, owned, t])
             if g != "true":
                 C.violation({"kind": "key-handout", "test": t, "len": len(s_.encode()), "owned": owned}, "{{ %s }} with s = %r and m = {s: 1}: engine %s, expected true (a key handed out by a filter is the text it was inserted under)" % (t, s_, g), {"job": job})
+    # (the same for keys that are not strings: a bool, a negative / unsigned / wide integer -- what `keys` and `pairs` hand out
+    # is the key, of its own kind, and finds its entry again)
+    tjobs, tmeta = [], []
+    TT = ["(m | keys | first) == s", "(m | pairs | first | first) == s", "m[m | keys | first] == 1", "(m | keys) == [s]", "[m | keys | first, s] | unique | length == 1",
+          "s in (m | keys)", "(m | pairs) == [[s, 1]]", "((m | keys | first) is string) == (s is string)", "((m | keys | first) is bool) == (s is bool)",
+          "((m | keys | first) is integer) == (s is integer)", "((m | keys | first) ~ '') == (s ~ '')"]
+    for label, s_ in (("true", True), ("false", False), ("-1", {"$i64": "-1"}), ("7u64", {"$u64": "7"}), ("2^70", {"$i128": str(2**70)}), ("2^127+1", {"$u128": str(2**127 + 1)}), ("0", {"$i64": "0"})):
+        tjobs.append({"ctx": {"s": s_, "m": {"$map": [[s_, 1]]}}, "steps": [{"op": "render_str", "src": "".join("{{ %s }}," % t for t in TT), "auto": False}]})
+        tmeta.append(label)
+    for label, rr, job in zip(tmeta, vp.run_jobs(tjobs, tag="c17-keys-typed"), tjobs):
+        C.count(len(TT))
+        x = rr[0]
+        got = x.get("out", "").split(",")[:-1] if x.get("ok") else []
+        if x.get("panic") or x.get("abort") or not x.get("ok") or len(got) != len(TT):
+            C.violation({"kind": "key-handout-error", "s": label}, "keys / pairs of a map keyed by %s: %s" % (label, (x.get("msg") or x.get("disp") or "")[:200]), {"job": job})
+            continue
+        for t, g in zip(TT, got):
+            C.nontrivial(["key-handout", label, t])
+            if g != "true":
+                C.violation({"kind": "key-handout", "test": t, "key": label}, "{{ %s }} with s = %s and m = {s: 1}: engine %s, expected true (a key handed out by a filter is the key, of its own kind)" % (t, label, g), {"job": job})
     # ---- the built-in consumers of Sites.tla on operands produced in every way (a literal, `not`, a test, a filter, a call ...)
     import sites
     sites.run(C, "C17", ["entry", "component", "set-block"], only=sites.BUILTIN_CONS)
